@@ -203,7 +203,7 @@ def discharge(ob, z3_timeout_ms=10000, cvc5_timeout_s=30, cross_check=False, exp
         # a counter-model of the *weakened* VC only: try hard to refute (or confirm) it on the full VC before reporting it
         for cfg in (False, True):
             s = mk(cfg)
-            s.set("timeout", z3_timeout_ms * (2 if not cfg else 3))
+            s.set("timeout", int(z3_timeout_ms * (1.0 if not cfg else 1.5)))
             r = s.check()
             if r == z3.unsat:
                 ob.status, ob.backend, ob.time = "unsat", "z3-retry" + ("-mbqi" if cfg else ""), time.time() - t0
